@@ -100,7 +100,9 @@ func (g *Gen) tick() int64 {
 	case 0:
 		g.ts += 1 // next nanosecond
 	case 1:
-		// same timestamp as the previous entry
+		// (entries with the SAME timestamp are C10's subject: the generation
+		// number of a collection is the creating entry's timestamp)
+		g.ts += 2
 	case 2, 3:
 		g.ts += 1e9 + int64(g.r.Intn(1e9))
 	default:
